@@ -5,6 +5,7 @@ package swagen
 
 import (
 	"go/ast"
+	"strconv"
 	"strings"
 
 	"github.com/gopher-fleece/gleece/v2/core/pipeline"
@@ -825,6 +826,50 @@ func vhC10C18FrontWith(pert vhFrontPerturb, valid bool, checkDiagnostics bool) {
 		for j := 0; j < i; j++ {
 			symxAssert(!(diags[j].Code == d.Code && diags[j].Range == d.Range && diags[j].Message == d.Message), "C18.front.no-diagnostic-twice")
 		}
+	}
+	vhC18ErrorText(tree) // last: a path inside its recorded finding ends there
+}
+
+// the command's error text (what GleecePipeline.Run returns: the error-severity entities rendered by
+// DiagnosticsToError) mentions every error diagnostic exactly once
+func vhC18ErrorText(tree []diagnostics.EntityDiagnostic) {
+	errEntities := diagnostics.GetDiagnosticsWithSeverity(tree, []diagnostics.DiagnosticSeverity{diagnostics.DiagnosticError})
+	if len(errEntities) == 0 {
+		return
+	}
+	text := diagnostics.DiagnosticsToError(errEntities).Error()
+	// recorded finding: GetDiagnosticsWithSeverity lists an entity once per error it holds and lists children both
+	// under their parent and on their own, so the text repeats diagnostics (the repository's own test pins the count)
+	repeats := false
+	var scan func(e *diagnostics.EntityDiagnostic, ancestorHasError bool)
+	scan = func(e *diagnostics.EntityDiagnostic, ancestorHasError bool) {
+		own := 0
+		for _, d := range e.Diagnostics {
+			if d.Severity == diagnostics.DiagnosticError {
+				own++
+			}
+		}
+		if own >= 2 || (own >= 1 && ancestorHasError) {
+			repeats = true
+		}
+		for _, c := range e.Children {
+			scan(c, ancestorHasError || own >= 1)
+		}
+	}
+	for i := range tree {
+		scan(&tree[i], false)
+	}
+	symxKnownFor("C18-error-text-repeats-entities", "C18.front.error-text-mentions-no-diagnostic-twice", repeats)
+	for _, d := range vhFlattenDiags(tree) {
+		if d.Severity != diagnostics.DiagnosticError {
+			continue
+		}
+		line := d.Code + " at " + d.FilePath + ":" + strconv.Itoa(d.Range.StartLine+1) + ":" + strconv.Itoa(d.Range.StartCol+1) + " - " + d.Message + "\n"
+		n := strings.Count(text, line)
+		symxCover("C18.front.error-text")
+		symxRecord("mentions", d.Code, n)
+		symxAssert(n >= 1, "C18.front.error-text-mentions-every-error")
+		symxAssert(n <= 1, "C18.front.error-text-mentions-no-diagnostic-twice")
 	}
 }
 
